@@ -5,8 +5,8 @@
 (* ones that a second variation completes); transitions = variations.         *)
 EXTENDS FitContract, Json
 
-VaryQuick    == [A |-> 1, B |-> 1, C |-> 1, D |-> 1, E |-> 1]
-VaryThorough == [A |-> 2, B |-> 1, C |-> 1, D |-> 1, E |-> 1]
+VaryQuick    == [A |-> 1, B |-> 1, C |-> 1, D |-> 1, E |-> 1, F |-> 1, G |-> 1]
+VaryThorough == [A |-> 2, B |-> 1, C |-> 1, D |-> 1, E |-> 1, F |-> 1, G |-> 1]
 PairsQuick   == {}
 \* pairs of dimensions varied together (on base A): every pair of values of the two dimensions occurs
 PairsThorough ==
